@@ -77,79 +77,164 @@ theorem pick_win (cs : List Char) (pre post : List Rule) (k : TK) (m : List Char
     simp only [this, if_true]
     exact pick_post cs k n post hpost
 
+-- separators ----------------------------------------------------------------------------------------------------------------
+
+/-- the lexer loop passes over `sep` without a token or an error, whatever follows -/
+def Skips (sep : List Char) : Prop :=
+  ∀ (cs : List Char) (acc : LexOut) (f : Nat), (sep ++ cs).length < f → lexLoop f (sep ++ cs) acc = lexLoop f cs acc
+
+theorem skips_nil : Skips [] := fun _ _ _ _ => rfl
+
+theorem skips_app (a b : List Char) (ha : Skips a) (hb : Skips b) : Skips (a ++ b) := by
+  intro cs acc f hf
+  rw [List.append_assoc] at hf ⊢
+  rw [ha (b ++ cs) acc f hf, hb cs acc f (by simp only [List.length_append] at hf ⊢; omega)]
+
+/-- whitespace in front of a text can be dropped, at the same fuel -/
+theorem loop_drop_ws (cs : List Char) (acc : LexOut) (f : Nat) (hf : cs.length < f) :
+    lexLoop f (cs.drop (span isWs cs)) acc = lexLoop f cs acc := by
+  cases cs with
+  | nil => simp [span]
+  | cons c r =>
+    cases hw : isWs c with
+    | false => simp [span, hw]
+    | true =>
+      obtain ⟨g, rfl⟩ : ∃ g, f = g + 1 := ⟨f - 1, by simp at hf; omega⟩
+      rw [lexLoop_ws g c r acc hw]
+      have : (c :: r).drop (span isWs (c :: r)) = r.drop (span isWs r) := by simp [span, hw]
+      rw [this]
+      exact lexLoop_fuel _ _ _ acc (by simp only [List.length_drop, List.length_cons] at *; omega)
+        (by simp only [List.length_drop, List.length_cons] at *; omega)
+
+theorem skips_ws (c : Char) (h : isWs c = true) : Skips [c] := by
+  intro cs acc f hf
+  obtain ⟨g, rfl⟩ : ∃ g, f = g + 1 := ⟨f - 1, by simp at hf; omega⟩
+  simp only [List.cons_append, List.nil_append]
+  rw [lexLoop_ws g c cs acc h]
+  have h1 := loop_drop_ws cs acc g (by simp at hf; omega)
+  rw [h1]
+  exact lexLoop_fuel _ _ cs acc (by simp at hf; omega) (by simp at hf; omega)
+
+/-- a block comment, whatever it contains up to its first `*/` -/
+theorem skips_block (body : List Char) (h : hasClose body = false) : Skips ('/' :: '*' :: (body ++ ['*', '/'])) := by
+  intro cs acc f hf
+  have hc := closeComment_body body cs 2 h
+  have hnt := nextToken_comment (body ++ '*' :: '/' :: cs) (2 + body.length + 2) hc (by omega)
+  obtain ⟨g, rfl⟩ : ∃ g, f = g + 1 := ⟨f - 1, by simp at hf; omega⟩
+  have hl : ('/' :: '*' :: (body ++ ['*', '/'])) ++ cs = '/' :: '*' :: (body ++ '*' :: '/' :: cs) := by simp
+  rw [hl]
+  simp only [lexLoop, hnt, TK.skipped, if_true]
+  have hdrop : List.drop (2 + body.length + 2) ('/' :: '*' :: (body ++ '*' :: '/' :: cs)) = cs := by
+    have : 2 + body.length + 2 = (('/' :: '*' :: body) ++ ['*', '/']).length := by simp; omega
+    rw [this]
+    have hl2 : '/' :: '*' :: (body ++ '*' :: '/' :: cs) = (('/' :: '*' :: body) ++ ['*', '/']) ++ cs := by simp
+    rw [hl2]
+    exact List.drop_left
+  rw [hdrop]
+  exact lexLoop_fuel _ _ cs acc (by simp at hf; omega) (by simp at hf; omega)
+
+theorem span_line (body cs : List Char) (h : ∀ c ∈ body, c ≠ '\r' ∧ c ≠ '\n') :
+    span (fun c => c != '\r' && c != '\n') (body ++ '\n' :: cs) = body.length := by
+  induction body with
+  | nil => simp [span]
+  | cons b rest ih =>
+    have hb := h b (by simp)
+    simp only [List.cons_append, span, List.length_cons]
+    have : (b != '\r' && b != '\n') = true := by simp [hb.1, hb.2]
+    simp only [this, if_true]
+    rw [ih (fun c hc => h c (by simp [hc]))]
+
+/-- a line comment with its newline -/
+theorem skips_line (body : List Char) (h : ∀ c ∈ body, c ≠ '\r' ∧ c ≠ '\n') : Skips ('/' :: '/' :: (body ++ ['\n'])) := by
+  intro cs acc f hf
+  obtain ⟨g, rfl⟩ : ∃ g, f = g + 1 := ⟨f - 1, by simp at hf; omega⟩
+  have hl : ('/' :: '/' :: (body ++ ['\n'])) ++ cs = '/' :: '/' :: (body ++ '\n' :: cs) := by simp
+  rw [hl]
+  have hnt := nextToken_line (body ++ '\n' :: cs)
+  rw [span_line body cs h] at hnt
+  simp only [lexLoop, hnt, TK.skipped, if_true]
+  have hdrop : List.drop (2 + body.length) ('/' :: '/' :: (body ++ '\n' :: cs)) = '\n' :: cs := by
+    have : 2 + body.length = ('/' :: '/' :: body).length := by simp; omega
+    rw [this]
+    have hl2 : '/' :: '/' :: (body ++ '\n' :: cs) = ('/' :: '/' :: body) ++ '\n' :: cs := by simp
+    rw [hl2]
+    exact List.drop_left
+  rw [hdrop]
+  have := skips_ws '\n' (by decide) cs acc g (by simp at hf ⊢; omega)
+  simp only [List.cons_append, List.nil_append] at this
+  rw [this]
+  exact lexLoop_fuel _ _ cs acc (by simp at hf; omega) (by simp at hf; omega)
+
+/-- a separator between two tokens: starts with a whitespace character and is passed over -/
+def GoodSep (sep : List Char) : Prop := ∃ s more, sep = s :: more ∧ isWs s = true ∧ Skips sep
+
+theorem goodSep_space : GoodSep [' '] := ⟨' ', [], rfl, by decide, skips_ws ' ' (by decide)⟩
+
 -- rendering -----------------------------------------------------------------------------------------------------------------
 
-/-- whatever follows the separating space, the longest match at `t.text ++ " "` is `t` -/
+/-- whatever whitespace character and text follow, the longest match at `t.text` is `t` -/
 def Lexes (t : Token) : Prop :=
-  t.kind.skipped = false ∧ ∀ rest, nextToken (t.text ++ ' ' :: rest) = some (t.kind, t.text.length)
+  t.kind.skipped = false ∧ ∀ (s : Char) (rest : List Char), isWs s = true → nextToken (t.text ++ s :: rest) = some (t.kind, t.text.length)
 
-/-- every token followed by one space -/
-def render : List Token → List Char
+/-- every token followed by its separator -/
+def renderS : List (Token × List Char) → List Char
   | [] => []
-  | t :: ts => t.text ++ ' ' :: render ts
+  | (t, sep) :: ts => t.text ++ (sep ++ renderS ts)
 
-theorem lexes_head (t : Token) (h : Lexes t) : ∃ c w, t.text = c :: w ∧ isWs c = false := by
-  cases ht : t.text with
-  | nil =>
-    have := h.2 []
-    rw [ht] at this
-    have hp := nextToken_pos _ _ _ this
-    simp at hp
-  | cons c w =>
-    refine ⟨c, w, rfl, ?_⟩
-    cases hw : isWs c with
-    | false => rfl
-    | true =>
-      have := h.2 []
-      rw [ht, List.cons_append, nextToken_ws c _ hw] at this
-      simp only [Option.some.injEq, Prod.mk.injEq] at this
-      have hk := h.1
-      rw [← this.1] at hk
-      cases hk
-
-theorem render_head (ts : List Token) (h : ∀ t ∈ ts, Lexes t) : ∀ c, (render ts).head? = some c → isWs c = false := by
-  cases ts with
-  | nil => intro c hc; cases hc
-  | cons t rest =>
-    obtain ⟨c0, w, ht, hw⟩ := lexes_head t (h t (by simp))
-    intro c hc
-    simp only [render, ht, List.cons_append, List.head?_cons, Option.some.injEq] at hc
-    rw [← hc]; exact hw
-
-theorem lexLoop_render : ∀ (ts : List Token) (f : Nat) (acc : LexOut), (∀ t ∈ ts, Lexes t) → (render ts).length < f →
-    lexLoop f (render ts) acc = { toks := acc.toks ++ ts, errs := acc.errs }
+theorem lexLoop_renderS : ∀ (ts : List (Token × List Char)) (f : Nat) (acc : LexOut),
+    (∀ p ∈ ts, Lexes p.1 ∧ GoodSep p.2) → (renderS ts).length < f →
+    lexLoop f (renderS ts) acc = { toks := acc.toks ++ ts.map (·.1), errs := acc.errs }
   | [], f, acc, _, hf => by
     cases f with
     | zero => simp at hf
-    | succ f => simp [render, lexLoop]
-  | t :: ts, f, acc, h, hf => by
-    have ht := h t (by simp)
-    have hts : ∀ t ∈ ts, Lexes t := fun x hx => h x (by simp [hx])
-    obtain ⟨c0, w, htx, hw⟩ := lexes_head t ht
-    have hnt := ht.2 (render ts)
-    simp only [render] at hf ⊢
-    rw [htx] at hnt hf ⊢
-    simp only [List.cons_append, List.length_cons, List.length_append] at hf hnt
-    obtain ⟨f1, rfl⟩ : ∃ f1, f = f1 + 1 := ⟨f - 1, by omega⟩
-    simp only [List.cons_append, lexLoop, hnt, ht.1, Bool.false_eq_true, if_false]
-    have hdrop : (c0 :: (w ++ ' ' :: render ts)).drop (w.length + 1) = ' ' :: render ts := by
-      simp [List.drop_append]
-    have htake : (c0 :: (w ++ ' ' :: render ts)).take (w.length + 1) = c0 :: w := by
-      simp [List.take_append]
-    rw [hdrop, htake]
-    obtain ⟨f2, rfl⟩ : ∃ f2, f1 = f2 + 1 := ⟨f1 - 1, by omega⟩
-    rw [lexLoop_ws f2 ' ' (render ts) _ (by decide)]
-    have hd := drop_span_all [] (render ts) (by intro c hc; cases hc) (render_head ts hts)
-    simp only [List.nil_append] at hd
-    rw [hd]
-    rw [lexLoop_render ts f2 _ hts (by omega)]
-    have : (⟨t.kind, c0 :: w⟩ : Token) = t := by rw [← htx]
-    simp only [this, List.append_assoc, List.singleton_append]
+    | succ f => simp [renderS, lexLoop]
+  | (t, sep) :: ts, f, acc, h, hf => by
+    obtain ⟨ht, s, more, hsep, hs, hskip⟩ := h (t, sep) (by simp)
+    have hts : ∀ p ∈ ts, Lexes p.1 ∧ GoodSep p.2 := fun x hx => h x (by simp [hx])
+    simp only at ht hsep hskip
+    have hnt := ht.2 s (more ++ renderS ts) hs
+    have hpos := nextToken_pos _ _ _ hnt
+    cases htx : t.text with
+    | nil => rw [htx] at hpos; simp at hpos
+    | cons c0 w =>
+      simp only [renderS] at hf ⊢
+      rw [hsep, htx] at hf ⊢
+      rw [htx] at hnt
+      simp only [List.cons_append, List.length_cons, List.length_append] at hf hnt
+      obtain ⟨f1, rfl⟩ : ∃ f1, f = f1 + 1 := ⟨f - 1, by omega⟩
+      simp only [List.cons_append, lexLoop, hnt, ht.1, Bool.false_eq_true, if_false]
+      have hdrop : (c0 :: (w ++ s :: (more ++ renderS ts))).drop (w.length + 1) = s :: (more ++ renderS ts) := by simp
+      have htake : (c0 :: (w ++ s :: (more ++ renderS ts))).take (w.length + 1) = c0 :: w := by simp
+      rw [hdrop, htake]
+      have hsk := hskip (renderS ts) { toks := acc.toks ++ [⟨t.kind, c0 :: w⟩], errs := acc.errs } f1
+        (by rw [hsep]; simp only [List.cons_append, List.length_cons, List.length_append]; omega)
+      rw [hsep] at hsk
+      simp only [List.cons_append] at hsk
+      rw [hsk]
+      rw [lexLoop_renderS ts f1 _ hts (by omega)]
+      have : (⟨t.kind, c0 :: w⟩ : Token) = t := by rw [← htx]
+      simp only [this, List.map_cons, List.append_assoc, List.singleton_append]
+
+/-- **Whitespace and comments between tokens never change the token stream**: whatever separators — each beginning with a
+    whitespace character and consisting of whitespace, block comments and line comments — stand after the tokens, the lexer
+    reads exactly the tokens, without error. -/
+theorem lex_renderS (ts : List (Token × List Char)) (h : ∀ p ∈ ts, Lexes p.1 ∧ GoodSep p.2) :
+    lex (renderS ts) = { toks := ts.map (·.1), errs := 0 } := by
+  unfold lex
+  rw [lexLoop_renderS ts _ {} h (by omega)]
+  simp
+
+/-- every token followed by one space -/
+def render (ts : List Token) : List Char := renderS (ts.map (fun t => (t, [' '])))
 
 /-- **The lexer reads the space-separated rendering of lexable tokens back, without error.** -/
 theorem lex_render (ts : List Token) (h : ∀ t ∈ ts, Lexes t) : lex (render ts) = { toks := ts, errs := 0 } := by
-  unfold lex
-  rw [lexLoop_render ts _ {} h (by omega)]
-  simp
+  unfold render
+  rw [lex_renderS]
+  · simp [List.map_map, Function.comp_def]
+  · intro p hp
+    simp only [List.mem_map] at hp
+    obtain ⟨t, ht, rfl⟩ := hp
+    exact ⟨h t ht, goodSep_space⟩
 
 end Grule.LexRender
